@@ -241,5 +241,20 @@ PLANS = {
              'configuration or an inactive submachine with non-initial memory; distinct by (spec, configuration, archive format).',
         assumptions=['save points have empty queues (documented precondition)', 'back and back11 only (backmp11 serialization is not part of the property)'],
     ),
+    'C20': dict(
+        custom='c20_run', oracle=None, level='fault_enumeration', profiles=[], configs=[1, 3, 4, 5, 7], cp={}, examples=(0, 0),
+        rule='Coverage-guided fuzzing (libFuzzer, ASan + UBSan) of two kinds of target with the oracle inside: (a) a stateful model of '
+             'backmp11::detail::basic_polymorphic over 5 slots and a grid of 130 stored types (sizes around the 56-byte inline buffer, '
+             'alignments 1-64, trivial / non-trivial copy / non-trivial destructor / throwing move / self-referential); (b) real '
+             'machines (back deque, back circular, back11, backmp11 both policies) whose events are instance-counted types of different '
+             'size/alignment/traits, driven through submit, enqueue, defer (root and submachine), dispatch, nested submission, clear, '
+             'stop/start, copy/move of the machine and destruction with events pending. Oracle: every dispatched/held object equals the '
+             'submitted one (checksum, self pointer), nothing dispatched twice or unsubmitted, every stored copy destroyed exactly once '
+             '(registry empty when the holders are gone). Non-trivial = an operation on a non-trivially-copyable or heap-stored object '
+             '/ with occurrences pending at clear, stop, copy, move or destroy; distinct by a hash of (operation context).',
+        assumptions=['queues of sufficient capacity', 'copying back/back11 machines with pending events is excluded (known finding of C15)'],
+        level_text='Fuzzing with sanitizers: memory-safety and exactly-once lifetime held on everything explored; the type grid is enumerated completely, operation histories are generated.',
+        technique='coverage-guided fuzzing (libFuzzer + ASan/UBSan) with an in-target lifetime/value oracle',
+    ),
 }
 NOT_YET = {}
